@@ -326,18 +326,21 @@ func runC20(c *Ctx) {
 				n++
 				// in place iff dominated by cap(x)-len(x) >= len(more) on the true edge
 				ok := fi.HasFact(cs.In, func(ft ir.Fact) bool {
-					b, isB := ft.Cond.(*ssa.BinOp)
-					if !isB || !ft.Truth || b.Op != token.GEQ {
+					// len(more) <= cap(x) - len(x), in any spelling
+					lx, ly, _, isLT := lessThanFact(ft)
+					if !isLT {
 						return false
 					}
-					d, isD := ir.Resolve(b.X).(*ssa.BinOp)
+					if _, isLen := ir.IsLenOf(ir.Resolve(lx)); !isLen {
+						return false
+					}
+					d, isD := ir.Resolve(ly).(*ssa.BinOp)
 					if !isD || d.Op != token.SUB {
 						return false
 					}
 					_, isCap := ir.IsCapOf(ir.Resolve(d.X))
 					_, isLen := ir.IsLenOf(ir.Resolve(d.Y))
-					_, isLen2 := ir.IsLenOf(ir.Resolve(b.Y))
-					return isCap && isLen && isLen2
+					return isCap && isLen
 				})
 				if !ok {
 					bad = name + " appends at " + c.Pos(cs.In) + " without knowing that the bytes fit the capacity: the runtime then picks a capacity that is a multiple of 32 but not a class size, Free files the buffer under a larger class, and a later Malloc re-slices it beyond its capacity"
